@@ -285,7 +285,7 @@ def compare_job(pjob, cfgs, vars_by_child, recs, acc):
             diff = _difftables(None, recs[base]["tables"], None, recs[i]["tables"])
             acc.fail(
                 "process-determinism",
-                "output-differs:%s:%s" % (pipe, _first_tag(diff)),
+                "output-differs:%s" % pipe,
                 "%s: sha256 %s.. vs %s..; tables differing: %s; child A %s; child B %s" % (name, recs[base]["sha"][:12], recs[i]["sha"][:12], diff, _cfg_summary(cfgs[base], vars_by_child[base][name]), _cfg_summary(cfgs[i], vars_by_child[i][name])),
                 allcase([base, i]),
             )
